@@ -6,7 +6,7 @@
 //	mkoverlay -repo /repo -verif /verif -out /dev/shm/x [-noyield]
 //
 // For every non-test Go file of the root package and of mqtttest it inserts a
-// call verifsim.Yield("file:line") before each statement that sends on,
+// call verifsim.Yield("file:line") before each statement that uses sync/atomic or sends on,
 // receives from, closes, selects on or ranges over a channel, or that locks a
 // mutex -- except inside a mutex critical section. mqtt.go's import of "os" is
 // rebound to the simulated os. The Go runtime's select.go gets a deterministic
@@ -215,7 +215,7 @@ func instrumentDir(src, rel string, names []string, replace map[string]string) (
 	// type information, to tell a range over a channel from other ranges;
 	// failure to type-check is not fatal (syntactic fallback: no range
 	// body yields), the Go build will report real errors.
-	info := &types.Info{Types: map[ast.Expr]types.TypeAndValue{}}
+	info := &types.Info{Types: map[ast.Expr]types.TypeAndValue{}, Uses: map[*ast.Ident]types.Object{}}
 	if rel == "" && !*noyield {
 		conf := types.Config{Importer: importer.ForCompiler(fset, "source", nil), Error: func(error) {}}
 		conf.Check("mqtt", fset, files, info)
@@ -448,6 +448,13 @@ func (in *instr) touchesChan(s ast.Stmt) bool {
 		case *ast.CallExpr:
 			if id, ok := x.Fun.(*ast.Ident); ok && id.Name == "close" && len(x.Args) == 1 {
 				found = true
+			}
+			// sync/atomic functions and methods are synchronisation
+			// points between goroutines just as channel operations are
+			if sel, ok := x.Fun.(*ast.SelectorExpr); ok {
+				if obj := in.info.Uses[sel.Sel]; obj != nil && obj.Pkg() != nil && obj.Pkg().Path() == "sync/atomic" {
+					found = true
+				}
 			}
 		}
 		return true
